@@ -139,6 +139,23 @@ Proof.
   eapply bool_decide_eq_true_1; vm_compute; reflexivity.
 Qed.
 
+(* STILL FALSE (4): a connect-native service registered with upstreams (Catalog.Register accepts it)
+   gets pairs (upstream, "") -- the "downstream" is the proxy destination, empty for a native
+   service -- and cleanupMeshTopology returns at once for anything that is not a connect-proxy: the
+   pair and its reference outlive the instance *)
+Definition topo_native_log : list (N * cmd) :=
+  [ (3, Register "n1" "" 1 false (Some (SvcReq "s1" "web" KTypical true "" 80 ["db"] true 0)) []);
+    (4, Deregister "n1" "s1" "") ].
+
+Lemma topology_witness4 :
+  services (run topo_native_log st0).1 = ∅ /\
+  topo (run topo_native_log st0).1 !! ("db", "") = Some {[ ("n1", "s1") ]} /\
+  recompute_topo (run topo_native_log st0).1 !! ("db", "") = None.
+Proof.
+  split; [eapply bool_decide_eq_true_1; vm_compute; reflexivity|].
+  split; [eapply bool_decide_eq_true_1; vm_compute; reflexivity|vm_compute; reflexivity].
+Qed.
+
 (* ---- gateway-services ---- *)
 (* a service listed next to the wildcard of the same entry registers and deregisters.  Before /repo
    a882280 the listed row became FromWildcard on registration and disappeared on deregistration; now
